@@ -225,8 +225,15 @@ function errSum (e) {
   return name + (e.tag !== undefined ? '#' + e.tag : '')
 }
 
+let acornLib = null
 function compile (code, isModule) {
-  // compile only (never run): V8's verdict on syntax
+  // compile only (never run): V8's verdict on syntax. acorn is consulted first: node 20 can abort the whole
+  // process (assertion in GetErrorSource) while decorating a SyntaxError for some malformed texts, so V8 is
+  // only asked about texts acorn accepts; an acorn rejection counts as "not valid" (skipped and counted by callers).
+  if (!acornLib) acornLib = require('../../vendor/acorn.js')
+  try {
+    acornLib.parse(code, { ecmaVersion: 'latest', sourceType: isModule ? 'module' : 'script', allowHashBang: true, allowReturnOutsideFunction: false, allowAwaitOutsideFunction: !!isModule })
+  } catch (e) { return 'acorn: ' + String(e && e.message) }
   try {
     if (isModule) {
       // eslint-disable-next-line no-new
